@@ -851,7 +851,7 @@ def stage_programs(tr: "Tr") -> tuple[str, dict]:
             arms.append(f"  | {pattern} => {build()}")
             status["compile." + name] = "translated"
         except Untranslatable as e:
-            arms.append(f"  | {pattern} => Pipeline.compile ({fallback_args})   -- SKIPPED: {str(e)[:120]}")
+            arms.append(f"  | {pattern} => Pipeline.compile ({fallback_args})   -- SKIPPED: {' '.join(str(e).split())[:120]}")
             status["compile." + name] = f"skipped: {e}"
 
     def match(discr: str, cases: list[tuple[str, str]]) -> str:
@@ -1134,6 +1134,12 @@ class Zeros:
         self.like = like
 
 
+class MethodRef:
+    """a bound method of the class held in a local (`f = self._helper`, `f = getattr(self, "_helper")`)"""
+    def __init__(self, name: str):
+        self.name = name
+
+
 IDENTITY_METHODS = {"clone", "float", "to", "bool", "contiguous", "unsqueeze", "squeeze", "reshape", "permute", "int"}
 IDENTITY_FUNCS = {"T.view_as_complex", "T.view_as_real", "T.to_tensor", "torch.from_numpy", "torch.view_as_complex",
                   "torch.view_as_real", "np.asarray"}
@@ -1198,11 +1204,24 @@ class StageExec:
         return isinstance(node, ast.Subscript) and ast.unparse(node.value) == "sample"
 
     # ---- abstract values of parameters / conditions ----------------------------------------------
+    def module_const(self, node: ast.AST):
+        """the literal a module-level constant `NAME = (…)` / `[…]` denotes, for a `Name` node; None otherwise"""
+        if not isinstance(node, ast.Name) or node.id in self.locals:
+            return None
+        vals = [st.value for st in self.tree.body if isinstance(st, (ast.Assign, ast.AnnAssign))
+                and ast.unparse(st.targets[0] if isinstance(st, ast.Assign) else st.target) == node.id]
+        if len(vals) == 1 and isinstance(vals[0], (ast.Tuple, ast.List)):
+            return vals[0]
+        return None
+
     def pval(self, node: ast.AST):
         """python value of a parameter expression, or _MISSING"""
         t = ast.unparse(node)
         if t in self.params:
             return self.params[t]
+        mc = self.module_const(node)
+        if mc is not None:
+            node = mc
         if isinstance(node, ast.Constant):
             return node.value
         if isinstance(node, ast.Attribute) and t in self.tr.enums:
@@ -1398,6 +1417,11 @@ class StageExec:
             self.emit_assign(d.term, op, [a.term for a in args])
             return Loc(d.term, temp=d.temp, kind=kind)
 
+        if isinstance(node, ast.Call) and isinstance(node.func, ast.Name) and isinstance(self.locals.get(node.func.id), MethodRef):
+            return self.call_helper(node, self.locals[node.func.id].name)
+        if (isinstance(node, ast.Call) and isinstance(node.func, ast.Attribute) and isinstance(node.func.value, ast.Name)
+                and node.func.value.id == "self" and node.func.attr in self.methods() and node.func.attr.startswith("_")):
+            return self.call_helper(node)
         if isinstance(node, ast.Call):
             f = ast.unparse(node.func)
             args = node.args
@@ -1642,6 +1666,19 @@ class StageExec:
                         and ast.unparse(st.value.func)[5:] in self.methods()):
                     self.locals[name] = self.call_helper(st.value)
                     return None
+                if (isinstance(st.value, ast.Attribute) and isinstance(st.value.value, ast.Name) and st.value.value.id == "self"
+                        and st.value.attr in self.methods()):
+                    self.locals[name] = MethodRef(st.value.attr)
+                    return None
+                if (isinstance(st.value, ast.Call) and ast.unparse(st.value.func) == "getattr" and len(st.value.args) == 2
+                        and ast.unparse(st.value.args[0]) == "self" and isinstance(st.value.args[1], ast.Constant)
+                        and st.value.args[1].value in self.methods()):
+                    self.locals[name] = MethodRef(st.value.args[1].value)
+                    return None
+                if (isinstance(st.value, ast.Call) and isinstance(st.value.func, ast.Name)
+                        and isinstance(self.locals.get(st.value.func.id), MethodRef)):
+                    self.locals[name] = self.call_helper(st.value, self.locals[st.value.func.id].name)
+                    return None
                 if self.is_meta_expr(self.strip(st.value)) and not isinstance(self.strip(st.value), ast.Name):
                     self.locals[name] = Meta()
                     return None
@@ -1696,6 +1733,37 @@ class StageExec:
                 d = self.fresh()
                 self.emit_assign(d.term, ".kthModulus", [data.term])
                 self.locals["scaling_factor"] = d
+                return None
+        # (f) linear scan of an ordered module-level dispatch table of (values, method name) pairs:
+        #     `for values, name in TABLE: if self.<param> in values: f = getattr(self, name); break`  — the same decision tree
+        #     as an if/elif chain over the parameter; the default is whatever `f` was bound to before the loop
+        tab = self.module_const(st.iter)
+        if (tab is not None and isinstance(st.target, ast.Tuple) and len(st.target.elts) == 2 and not st.orelse
+                and all(isinstance(e, ast.Name) for e in st.target.elts) and len(st.body) == 1 and isinstance(st.body[0], ast.If)):
+            vals_var, name_var = (e.id for e in st.target.elts)
+            g = st.body[0]
+            t = g.test
+            if (isinstance(t, ast.Compare) and len(t.ops) == 1 and isinstance(t.ops[0], ast.In) and not g.orelse
+                    and ast.unparse(t.comparators[0]) == vals_var and len(g.body) == 2 and isinstance(g.body[1], ast.Break)
+                    and isinstance(g.body[0], ast.Assign) and len(g.body[0].targets) == 1 and isinstance(g.body[0].targets[0], ast.Name)
+                    and _norm(ast.unparse(g.body[0].value)) == f"getattr(self, {name_var})"):
+                a = self.pval(t.left)
+                if a is _MISSING or isinstance(a, Meta) or a == "truthy":
+                    raise Untranslatable(f"{self.cls}: dispatch on `{ast.unparse(t.left)}`")
+                var = g.body[0].targets[0].id
+                for entry in tab.elts:
+                    if not (isinstance(entry, (ast.Tuple, ast.List)) and len(entry.elts) == 2
+                            and isinstance(entry.elts[0], (ast.Tuple, ast.List)) and isinstance(entry.elts[1], ast.Constant)
+                            and isinstance(entry.elts[1].value, str)):
+                        raise Untranslatable(f"{self.cls}: dispatch table entry `{ast.unparse(entry)[:60]}`")
+                    values = [self.pval(e) for e in entry.elts[0].elts]
+                    if any(v is _MISSING for v in values):
+                        raise Untranslatable(f"{self.cls}: dispatch table values `{ast.unparse(entry.elts[0])[:60]}`")
+                    if a in values:
+                        if entry.elts[1].value not in self.methods():
+                            raise Untranslatable(f"{self.cls}: dispatch to unknown method {entry.elts[1].value}")
+                        self.locals[var] = MethodRef(entry.elts[1].value)
+                        break
                 return None
         # (e) loops that only write non-tensor entries
         if self.is_meta_expr(st.iter) and all(
@@ -1755,11 +1823,12 @@ class StageExec:
             self.locals[name] = Loc(d.term, temp=True, kind="mask")
         return None
 
-    def call_helper(self, call: ast.Call):
+    def call_helper(self, call: ast.Call, method: str | None = None):
         """inline a private method of the same class at the call site: parameters are bound to the arguments' values, the
         body is executed in the caller's state, the value of the `return` that is reached is the result"""
-        sub = inline_once_locals(find_function(self.tree, f"{self.cls}.{ast.unparse(call.func)[5:]}"))
-        params = [a.arg for a in sub.args.args[1:]]
+        sub = inline_once_locals(find_function(self.tree, f"{self.cls}.{method or ast.unparse(call.func)[5:]}"))
+        static = any(ast.unparse(d) == "staticmethod" for d in sub.decorator_list)
+        params = [a.arg for a in (sub.args.args if static else sub.args.args[1:])]
         if len(call.args) > len(params) or any(k.arg not in params for k in call.keywords):
             raise Untranslatable(f"{self.cls}: call `{ast.unparse(call)[:60]}`")
         bound = dict(zip(params, call.args))
